@@ -469,6 +469,11 @@ def case_hash(case):
 # ---------------------------------------------------------------------------------------------------
 # the generic property run
 # ---------------------------------------------------------------------------------------------------
+class SkipCase(Exception):
+  """observe() may raise this for a case on which the comparison is not meaningful (e.g. the quantity compared is below the float
+  resolution of the values it is computed from); the case is counted under `skipped_unresolvable` in the evidence, not compared."""
+
+
 class Prop:
   """Interface every harness/props/cXX.py module exposes (as module-level names):
 
@@ -626,6 +631,10 @@ def run_property(mod, tier, seed, replay=None):
       continue
     try:
       obs = mod.observe(c)
+    except SkipCase as e:
+      notes.setdefault('skipped_unresolvable', {}).setdefault(str(e), 0)
+      notes['skipped_unresolvable'][str(e)] += 1
+      continue
     except Exception as e:   # the implementation raised where the harness did not expect it
       impl_errors.append((c, '%s: %s' % (type(e).__name__, str(e)[:200])))
       continue
